@@ -5,7 +5,7 @@
 //	    behaviours exported by TLC (NotifStreamMC) whose first subscription carries no offset (the only way the
 //	    client library starts).  The server side is played by a fake OxiaClient gRPC service on a unix socket
 //	    that does exactly what the behaviour says the leader does (empty first batch with the commit offset,
-//	    batches sent one by one, stream broken at Disconnect / Restart); the subscriber is the real
+//	    batches sent one by one, stream broken at Disconnect / Restart / Elect); the subscriber is the real
 //	    oxia.AsyncClient.GetNotifications().  Compared: the StartOffsetExclusive of every (re)connection with the
 //	    argument of the behaviour's Subscribe step, and the notifications that reach the application with the
 //	    batches sent.
@@ -187,7 +187,7 @@ func runOne(base string, id int, beh []NStep, wait time.Duration) (*mismatch, er
 			case <-time.After(wait):
 				return fail(i, "batch of offset %d sent, nothing reached the application", st.Arg)
 			}
-		case "Disconnect", "Restart":
+		case "Disconnect", "Restart", "Elect":
 			if cur != nil {
 				select {
 				case cur.cmd <- cmd{nil}:
